@@ -179,6 +179,9 @@ pub struct StreamDrv<'c, 'w> {
     pub saw_direct: bool,
     /// bytes of stream s copied into stream_buffer but discarded by an advance
     pub discarded: usize,
+    /// with no stream selected (all of the role's streams are over) the parser stopped taking
+    /// input: what follows is left to the next request parser, feeding ends here
+    pub gave_up_after_end: bool,
 }
 
 impl<'c, 'w> StreamDrv<'c, 'w> {
@@ -186,7 +189,7 @@ impl<'c, 'w> StreamDrv<'c, 'w> {
         Self {
             p, wire, pos, delivered: BTreeMap::new(), out_log: Vec::new(), end_reported: BTreeMap::new(),
             error: None, parse_calls: 0, saw_partial_dest: false, saw_compress_nonempty: false,
-            saw_buffered: false, saw_direct: false, discarded: 0,
+            saw_buffered: false, saw_direct: false, discarded: 0, gave_up_after_end: false,
         }
     }
 
